@@ -15,5 +15,5 @@ func TestC23(t *testing.T) {
 	d := newFanoutDriver(t)
 	defer d.close()
 	outcomes := []string{"ok", "conflict", "unavailable"}
-	vt.Run(t, fanoutGen(t, outcomes, 7, vt.Pick(150, 2500), vt.Pick(4, 8), false), nil, d.runFanoutCase)
+	vt.Run(t, fanoutGen(t, outcomes, 7, vt.Pick(150, 1500), vt.Pick(4, 8), false), nil, d.runFanoutCase)
 }
